@@ -251,6 +251,16 @@ def derived(tier, rng):
             lambda mk2=mk2: ((lambda x: da.sliding_window_view(x, 3, axis=1).sum(-1)[da.from_array(mrow, chunks=(x.chunks[0],))])(mk2()),
                              np.lib.stride_tricks.sliding_window_view(sq, 3, axis=1).sum(-1)[mrow],
                              {"layout_drifting": True, "unknown_chunks": True}))
+        # the mask itself comes from a layout-drifting expression and the indexed array has ONE block along the masked axis,
+        # so the result's block grid is the mask's advertised grid
+        swref = np.lib.stride_tricks.sliding_window_view(sq, 3, axis=0).sum(-1)[0] >= 30
+        add(f"{tag}.one-block x[:, mask from swv(axis=0).sum(-1)[0] >= 30] [layout-drifting, unknown chunks]",
+            lambda mk2=mk2: ((lambda x: da.from_array(sq + 1, chunks=(8, 8))[:, da.sliding_window_view(x, 3, axis=0).sum(-1)[0] >= 30])(mk2()),
+                             (sq + 1)[:, swref], {"layout_drifting": True, "unknown_chunks": True}))
+        add(f"{tag}.one-block x[mask from swv(axis=1).sum(-1)[:, 0] >= 30] [layout-drifting, unknown chunks]",
+            lambda mk2=mk2: ((lambda x: da.from_array(sq + 1, chunks=(8, 8))[da.sliding_window_view(x, 3, axis=1).sum(-1)[:, 0] >= 30])(mk2()),
+                             (sq + 1)[np.lib.stride_tricks.sliding_window_view(sq, 3, axis=1).sum(-1)[:, 0] >= 30],
+                             {"layout_drifting": True, "unknown_chunks": True}))
     for ch in [(3, 3, 1), (2, 5), (7,)]:
         def mk1(ch=ch):
             return da.from_array(v7, chunks=(ch,))
@@ -274,6 +284,35 @@ def derived(tier, rng):
              lambda a: np.lib.stride_tricks.sliding_window_view(a, 3).sum(-1) * 2),
         ]:
             add(f"v7{ch}.{name}", lambda mk1=mk1, f=f, g=g: (f(mk1()), g(v7), {}))
+    # a window larger than the blocks: the native sliding-window reduction re-blocks its input, so the advertised layout of
+    # everything derived from it (here a boolean mask, then the selection it drives on a one-block array) drifts
+    big = np.arange(96.0 * 8).reshape(96, 8)
+    bigref = np.lib.stride_tricks.sliding_window_view(big, 72, axis=0).var(axis=-1)
+    thr = float(np.median(bigref[0]))
+    xd = np.arange(40.0).reshape(5, 8)
+    for bch in ((24, 4), (24, 2), (32, 8)):
+        def mkmask(bch=bch):
+            r = da.sliding_window_view(da.from_array(big, chunks=bch), 72, axis=0).var(axis=-1)
+            return r[0] >= thr
+        add(f"big{bch}.one-block x[:, mask from swv(72).var(-1)[0]] [layout-drifting, unknown chunks]",
+            lambda mkmask=mkmask: (da.from_array(xd, chunks=(5, 8))[:, mkmask()], xd[:, bigref[0] >= thr],
+                                   {"layout_drifting": True, "unknown_chunks": True}))
+        add(f"big{bch}.x(5,2)[:, mask from swv(72).var(-1)[0]] [layout-drifting, unknown chunks]",
+            lambda mkmask=mkmask: (da.from_array(xd, chunks=(5, 2))[:, mkmask()], xd[:, bigref[0] >= thr],
+                                   {"layout_drifting": True, "unknown_chunks": True}))
+    for bch in ((24, 4), (32, 8)):
+        add(f"big{bch}.r[r > t] full-dimensional mask over swv(72).var(-1) [layout-drifting, unknown chunks]",
+            lambda bch=bch: ((lambda r: r[r > 2000.0])(da.sliding_window_view(da.from_array(big, chunks=bch), 72, axis=0).var(axis=-1)),
+                             bigref[bigref > 2000.0], {"layout_drifting": True, "unknown_chunks": True}))
+    # a dask array handed to a block function as a keyword / inside a list argument: finalized into ONE task under its bare
+    # name, which the optimised (re-named, pinned) graph must still define
+    base = np.arange(6.0)
+    add("map_blocks(f, x+1, off=<0-d dask sum>)",
+        lambda: (da.map_blocks(_add_kw, da.from_array(base, chunks=3) + 1, off=da.ones((2,), chunks=1).sum() * 5, dtype="f8"), base + 11, {}))
+    add("map_blocks(f, x+1, [<1-d dask array>])",
+        lambda: (da.map_blocks(_add_first, da.from_array(base, chunks=3) + 1, [da.ones((1,), chunks=1) * 10], dtype="f8"), base + 11, {}))
+    add("map_blocks(f, x, off=<3-block dask array>).sum()",
+        lambda: (da.map_blocks(_add_kw_sum, da.from_array(base, chunks=2), off=da.ones((3,), chunks=1) * 2, dtype="f8").sum(), (base + 6).sum(), {}))
     # creation routines and a persisted input
     add("arange(7, chunks=3)", lambda: (da.arange(7, chunks=3), np.arange(7), {}))
     add("ones((3,4), chunks=2)*3", lambda: (da.ones((3, 4), chunks=2) * 3, np.ones((3, 4)) * 3, {}))
@@ -304,6 +343,11 @@ def _delayed_ten():
 
 def _add_kw(b, off=0):
     return b + off
+
+
+def _add_kw_sum(b, off=0):
+    import numpy
+    return b + numpy.sum(off)
 
 
 def _add_first(b, lst):
@@ -408,6 +452,11 @@ def rewrite_targets(tier, rng):
         "map_blocks(f, x+1, [delayed])": (lambda x: da.map_blocks(_add_first, x + 1, [_delayed_ten()], dtype="f8"), lambda a: a + 11),
         "map_blocks(f, x+1, off={'a': delayed})": (lambda x: da.map_blocks(_add_key, x + 1, off={"a": _delayed_ten()}, dtype="f8"), lambda a: a + 11),
         "map_blocks(f, x+1, delayed)": (lambda x: da.map_blocks(_add_pos, x + 1, _delayed_ten(), dtype="f8"), lambda a: a + 11),
+        # a dask array (0-d reduction result / small 1-D array) handed to a block function as a keyword or inside a list:
+        # it is finalized into one task under its bare name, which the optimised graph must still define
+        "map_blocks(f, x+1, off=<0-d dask sum>)": (lambda x: da.map_blocks(_add_kw, x + 1, off=da.ones((2,), chunks=1).sum() * 5, dtype="f8"), lambda a: a + 11),
+        "map_blocks(f, x+1, [<1-d dask array>])": (lambda x: da.map_blocks(_add_first, x + 1, [da.ones((1,), chunks=1) * 10], dtype="f8"), lambda a: a + 11),
+        "map_blocks(f, x+1, off=<swv reduction>[0])": (lambda x: da.map_blocks(_add_kw, x + 1, off=da.sliding_window_view(da.arange(6.0, chunks=1), 3).sum(-1)[1:2] + 4, dtype="f8"), lambda a: a + 11),
     }
     ops2 = {
         "(x+1)[1:4, ::2]": (lambda x: (x + 1)[1:4, ::2], lambda a: (a + 1)[1:4, ::2]),
